@@ -35,6 +35,7 @@ type c17Scenario struct {
 	Plugins    []c17Plugin       `json:"plugins"`
 	Clash      string            `json:"clash,omitempty"`      // which deliberate path clash the generator put in (histogram only)
 	OutputFile string            `json:"outputFile,omitempty"` // --output-file (only the main module is generated; not in the plan model)
+	GoPath     bool              `json:"goPath,omitempty"`     // no --pkg-prefix: the prefix is derived from $GOPATH = {S}/gopath (Out lies below its src/)
 }
 
 type c17Module struct {
@@ -116,6 +117,9 @@ func runC17Scenario(s c17Scenario, idx int) (c17Result, string) {
 		os.WriteFile(full, []byte(c), 0o644)
 	}
 	args := []string{"--out", sub(s.Out), "--pkg-prefix", "x"}
+	if s.GoPath {
+		args = args[:2]
+	}
 	if s.ThriftRoot != "" {
 		args = append(args, "--thrift-root", sub(s.ThriftRoot))
 	}
@@ -147,7 +151,7 @@ func runC17Scenario(s c17Scenario, idx int) (c17Result, string) {
 	defer cancel()
 	cmd := exec.CommandContext(ctx, thriftrw(), args...)
 	cmd.Dir = filepath.Join(sandbox, s.Cwd)
-	cmd.Env = append(os.Environ(), "PATH="+fakeBinDir()+":"+os.Getenv("PATH"), "VERIF_FAKE_DIR="+scripts)
+	cmd.Env = append(os.Environ(), "PATH="+fakeBinDir()+":"+os.Getenv("PATH"), "VERIF_FAKE_DIR="+scripts, "GOPATH="+filepath.Join(sandbox, "gopath"))
 	cmd.SysProcAttr = &syscall.SysProcAttr{Setpgid: true}
 	errPath := filepath.Join(scripts, "stderr.txt")
 	errFile, _ := os.Create(errPath)
@@ -339,6 +343,11 @@ func c17Generate(r *rng.R, n int) []c17Scenario {
 		default:
 			s.Out = "{S}/out"
 		}
+		if r.Chance(1, 5) {
+			// the package prefix comes from $GOPATH instead of --pkg-prefix
+			s.GoPath = true
+			s.Out = []string{"{S}/gopath/src/example.com/p/gen", "{S}/gopath/src/q", "../gopath/src/a/b/c/", "{S}/gopath/src/x/../y/gen"}[r.Intn(4)]
+		}
 		outRel := func() string {
 			o := strings.ReplaceAll(s.Out, "{S}", "/S")
 			if !filepath.IsAbs(o) {
@@ -348,8 +357,11 @@ func c17Generate(r *rng.R, n int) []c17Scenario {
 			return r
 		}()
 		// pre-existing content of the output directory
-		s.Files[filepath.Join(outRel, "existing.txt")] = "old"
-		stale := r.Chance(1, 2)
+		fresh := r.Chance(1, 3) // the output directory (and its parents) do not exist yet
+		if !fresh {
+			s.Files[filepath.Join(outRel, "existing.txt")] = "old"
+		}
+		stale := !fresh && r.Chance(1, 2)
 		if stale {
 			s.Files[filepath.Join(outRel, "main", "main.go")] = "// stale"
 		}
@@ -493,7 +505,7 @@ func c17Generate(r *rng.R, n int) []c17Scenario {
 		if r.Chance(1, 8) {
 			s.OutputFile = outputFileShapes[r.Intn(len(outputFileShapes))]
 		}
-		s.Label = fmt.Sprintf("layout%d mods=%d fail=%d root=%q out=%q plugins=%d output-file=%q", layout, nm, len(failing), s.ThriftRoot, s.Out, nplug, s.OutputFile)
+		s.Label = fmt.Sprintf("layout%d mods=%d fail=%d root=%q out=%q plugins=%d output-file=%q gopath=%v fresh-out=%v", layout, nm, len(failing), s.ThriftRoot, s.Out, nplug, s.OutputFile, s.GoPath, fresh)
 		out = append(out, s)
 	}
 	return out
@@ -559,6 +571,12 @@ func c17Check(c *checker, scs []c17Scenario, how string) {
 		if s.OutputFile != "" {
 			c.rep.Hist("output-file-shape", s.OutputFile)
 		}
+		c.rep.Hist("package-prefix-from", map[bool]string{true: "$GOPATH", false: "--pkg-prefix"}[s.GoPath])
+		if _, had := s.Files[filepath.Join(outRel, "existing.txt")]; !had {
+			c.rep.Hist("output-directory", "does not exist before the run")
+		} else {
+			c.rep.Hist("output-directory", "exists with content")
+		}
 		if impl != model && s.OutputFile == "" {
 			c.rep.Disagree(report.Disagreement{Kind: "C17 thriftrw vs generate plan (" + how + ")", Input: input, Impl: impl + " | stderr: " + firstLine(res.stderr), Model: model})
 		}
@@ -567,7 +585,8 @@ func c17Check(c *checker, scs []c17Scenario, how string) {
 			c.oracle("C17 host crashed", input, impl, firstLine(res.stderr))
 		}
 		for _, d := range res.diff {
-			if !within(outRel, d[1:]) {
+			// (a directory above an output directory that did not exist yet is created with it)
+			if !within(outRel, d[1:]) && !(d[0] == '+' && strings.HasPrefix(outRel, d[1:]+"/")) {
 				c.oracle("C17 write outside the output directory", input, impl, "changed "+d+" (output directory "+outRel+")")
 			}
 			if d[0] == '-' {
@@ -794,6 +813,6 @@ func runC17(c *checker, r *rng.R) {
 	c17Check(c, c17Regressions(), "regressions")
 	c17Paths(c, r)
 	c.flush()
-	c.rep.Rule = "scenarios = the real thriftrw binary in a sandbox tree (sources, output directory with pre-existing files, a sibling directory) hashed before/after: 1..5 modules in 5 directory layouts with the k-th module failing to generate x {no --thrift-root, proj, grandparent, main's own dir, uncleaned, relative} x 5 out-dir spellings x 0..3 plugins returning paths from {relative, absolute, .., ., repeated separators, trailing slash, equal to a core path, equal to another plugin's path, the output directory itself (\"\", \".\", \"./\", \"/\"), a file below / a directory of another plugin's path, a file below / a directory of a possible core file} or failing; compared with the Lean plan (exit status + exact set of files written with contents); + 12k random POSIX path pairs through Clean/Join/Rel/Dir/Base/IsAbs/generated-file path vs path/filepath. non-trivial = has plugins, several modules or an explicit root; distinct by scenario"
+	c.rep.Rule = "scenarios = the real thriftrw binary in a sandbox tree (sources, output directory with pre-existing files or (1 in 3) not existing yet, a sibling directory; package prefix from --pkg-prefix or (1 in 5) derived from $GOPATH) hashed before/after: 1..5 modules in 5 directory layouts with the k-th module failing to generate x {no --thrift-root, proj, grandparent, main's own dir, uncleaned, relative} x 5 out-dir spellings x 0..3 plugins returning paths from {relative, absolute, .., ., repeated separators, trailing slash, equal to a core path, equal to another plugin's path, the output directory itself (\"\", \".\", \"./\", \"/\"), a file below / a directory of another plugin's path, a file below / a directory of a possible core file} or failing; compared with the Lean plan (exit status + exact set of files written with contents); + 12k random POSIX path pairs through Clean/Join/Rel/Dir/Base/IsAbs/generated-file path vs path/filepath. non-trivial = has plugins, several modules or an explicit root; distinct by scenario"
 	c.rep.Notes = append(c.rep.Notes, "D42, D34 and D33 are fixed: their witnesses run as ordinary scenarios (a failure must leave the sandbox untouched), and the D33 shapes — a path that is the output directory itself, file-vs-directory pairs between two plugins and between a plugin and a core file — are part of the random stream; what the output directory holds beforehand (existing.txt, sometimes a stale main/main.go) is never in the way of an accepted plan: a write refused by the OS half-way is outside C17")
 }
